@@ -278,6 +278,14 @@ var (
 
 func addrZ(b []byte) *big.Int { return new(big.Int).SetBytes(b) }
 
+// callees of the return-data programs besides the precompiles: an address without account, and a helper contract that
+// copies its input to memory and REVERTs with the first 5 bytes of it
+var (
+	codelessAddr = common.HexToAddress("0x00000000000000000000000000000000c0dedead")
+	helperAddr   = common.HexToAddress("0x00000000000000000000000000000000c0de0003")
+	helperCode   = []byte{0x36, 0x60, 0x00, 0x60, 0x00, 0x37, 0x60, 0x05, 0x60, 0x00, 0xfd}
+)
+
 // envWords: ADDRESS ORIGIN CALLER CALLVALUE GASPRICE COINBASE TIMESTAMP NUMBER DIFFICULTY GASLIMIT CHAINID SELFBALANCE
 func envWords(gas uint64) [12]*big.Int {
 	return [12]*big.Int{addrZ(vmx.CodeAddr.Bytes()), addrZ(vmx.Origin.Bytes()), addrZ(vmx.Origin.Bytes()), new(big.Int).Set(curValue),
@@ -302,6 +310,9 @@ func runEVM(code, input []byte, gas uint64) (o obs) {
 		state.SetBalance(vmx.Origin, new(big.Int).Lsh(big.NewInt(1), 100))
 		state.CreateAccount(vmx.CodeAddr)
 		state.SetNonce(vmx.CodeAddr, 1)
+		state.CreateAccount(helperAddr)
+		state.SetNonce(helperAddr, 1)
+		state.SetCode(helperAddr, helperCode)
 		stateUses = 0
 	}
 	stateUses++
@@ -513,7 +524,9 @@ func refRun(code, input []byte, defined *[256]bool, maxSteps int) (out refOut) {
 				}
 			}
 			inOff, inSize, retOff, retSize := pop(), pop(), pop(), pop()
-			if !(addr.Cmp(big.NewInt(4)) == 0 || addr.Cmp(big.NewInt(2)) == 0) || gasArg.Cmp(big.NewInt(100000)) < 0 {
+			isCodeless := addr.Cmp(addrZ(codelessAddr.Bytes())) == 0
+			isHelper := addr.Cmp(addrZ(helperAddr.Bytes())) == 0
+			if !(addr.Cmp(big.NewInt(4)) == 0 || addr.Cmp(big.NewInt(2)) == 0 || isCodeless || isHelper) || gasArg.Cmp(big.NewInt(100000)) < 0 {
 				return refOut{kind: "skip", steps: steps}
 			}
 			if ok, bm := expand(inOff, inSize); !ok {
@@ -527,9 +540,19 @@ func refRun(code, input []byte, defined *[256]bool, maxSteps int) (out refOut) {
 				in = append(in, mem[int(inOff.Int64()):int(inOff.Int64())+int(inSize.Int64())]...)
 			}
 			out := in
-			if addr.Cmp(big.NewInt(2)) == 0 {
+			success := int64(1)
+			switch {
+			case addr.Cmp(big.NewInt(2)) == 0:
 				h := sha256.Sum256(in)
 				out = h[:]
+				otherPre = true
+			case isCodeless: // no account, no value: nothing runs, empty output, success
+				out = nil
+				otherPre = true
+			case isHelper: // REVERT with the first 5 bytes of the (zero-padded) input: the output is still delivered
+				out = make([]byte, 5)
+				copy(out, in)
+				success = 0
 				otherPre = true
 			}
 			if retSize.Sign() > 0 {
@@ -545,7 +568,7 @@ func refRun(code, input []byte, defined *[256]bool, maxSteps int) (out refOut) {
 			}
 			rd = append([]byte{}, out...)
 			ncalls++
-			push(big.NewInt(1))
+			push(big.NewInt(success))
 		case op == 0x36:
 			if e := need(0, 1); e != "" {
 				return fail(e)
@@ -1070,15 +1093,40 @@ func genRetData(r *hx.Rng, f vmx.Fork, overlap bool) []byte {
 		g.emit(0x52)
 		g.h -= 2
 	}
-	addr := 4
+	// a non-zero pattern where the output window (and its neighbourhood) will be: whatever a call or a copy does not
+	// write must still be there afterwards
+	for o := 0x1e0; o < 0x380; o += 32 {
+		w := r.Bytes(32)
+		for i := range w {
+			if w[i] == 0 {
+				w[i] = 0xa5
+			}
+		}
+		g.pushV(new(big.Int).SetBytes(w))
+		g.emit(push2(o)...)
+		g.emit(0x52)
+		g.h--
+	}
+	addrV := big.NewInt(4)
 	outLen := inSize
 	genOtherPre = false
-	if r.Intn(4) == 0 {
-		addr, outLen = 2, 32
+	switch r.Intn(8) {
+	case 0:
+		addrV, outLen = big.NewInt(2), 32
+		genOtherPre = true
+	case 1:
+		addrV, outLen = addrZ(codelessAddr.Bytes()), 0
+		genOtherPre = true
+	case 2:
+		addrV, outLen = addrZ(helperAddr.Bytes()), 5
 		genOtherPre = true
 	}
-	retOff, retSize := 0x200+r.Intn(64), []int{0, outLen, outLen / 2, outLen + 7}[r.Intn(4)]
-	if overlap && inSize > 1 { // output area shifted inside the input window
+	retSize := []int{0, 1, outLen - 1, outLen, outLen + 1, outLen + 31, outLen + 64}[r.Intn(7)]
+	if retSize < 0 {
+		retSize = 0
+	}
+	retOff := 0x200 + r.Intn(64)
+	if overlap && inSize > 1 && !genOtherPre { // output area shifted inside the input window
 		retOff = inOff + 1 + r.Intn(inSize-1)
 		retSize = 1 + r.Intn(inSize)
 	}
@@ -1091,7 +1139,7 @@ func genRetData(r *hx.Rng, f vmx.Fork, overlap bool) []byte {
 		op = 0xf1
 		g.pushV(big.NewInt(0))
 	}
-	g.pushV(big.NewInt(int64(addr)))
+	g.pushV(addrV)
 	if r.Bool() {
 		g.emit(0x5a)
 		g.h++
@@ -1136,6 +1184,38 @@ func genRetData(r *hx.Rng, f vmx.Fork, overlap bool) []byte {
 			g.pushV(big.NewInt(int64(at)))
 			g.emit(0x37)
 			g.h -= 3
+		}
+	}
+	// partial writes inside the pattern region: bytes outside the written range must stay
+	for i := r.Intn(3); i > 0; i-- {
+		at := 0x1e0 + r.Intn(0x180)
+		n := []int{0, 1, 2, 31, 32, 33}[r.Intn(6)]
+		switch r.Intn(4) {
+		case 0:
+			g.pushV(big.NewInt(int64(r.Intn(256))))
+			g.pushV(big.NewInt(int64(at)))
+			g.emit(0x53)
+			g.h -= 2
+		case 1: // CALLDATACOPY, source partly or wholly beyond the call data (zero fill of exactly n bytes)
+			g.pushV(big.NewInt(int64(n)))
+			g.pushV(big.NewInt(int64(r.Intn(120))))
+			g.pushV(big.NewInt(int64(at)))
+			g.emit(0x37)
+			g.h -= 3
+		case 2: // CODECOPY
+			g.pushV(big.NewInt(int64(n)))
+			g.pushV(big.NewInt(int64(r.Intn(2000))))
+			g.pushV(big.NewInt(int64(at)))
+			g.emit(0x39)
+			g.h -= 3
+		case 3:
+			if g.mcopy {
+				g.pushV(big.NewInt(int64(n)))
+				g.pushV(big.NewInt(int64(r.Intn(0x3c0))))
+				g.pushV(big.NewInt(int64(at)))
+				g.emit(0x5e)
+				g.h -= 3
+			}
 		}
 	}
 	g.block(r.Intn(3), g.h, 10)
